@@ -184,7 +184,63 @@ def overtime_case(item):
     return ("ok", viols[:4], nsteps, 1)
 
 
+def backtest_case(item):
+    """Rebalance inside a real Backtest on a nested tree with explicit Security objects: right after
+    the algo every targeted child sits at its target weight (fractional, cost-free: exactly)"""
+    bt = rt.bt()
+    A = bt.algos
+    from .. import runfam as R
+
+    tree, integer, dname, sub_w, root_w = item
+    data = R.table(dname, "exact", late=False)
+    seen = []
+
+    class Probe(bt.core.Algo):
+        def __call__(self, target):
+            if target.root.name == "r" and "weights" in target.temp:
+                seen.append((R.node_path(target), str(target.now), dict(target.temp["weights"]), {k: float(c.weight) for k, c in target.children.items()}, float(target.value)))
+            return True
+
+    def sub(name, w, kids):
+        return bt.Strategy(name, [A.RunDaily(), A.WeighSpecified(**w), A.Rebalance(), Probe()], kids)
+
+    if tree == "two":
+        s1 = sub("s", sub_w, [bt.Security("a"), bt.Security("b")])
+        root = bt.Strategy("r", [A.RunWeekly(), A.WeighSpecified(**root_w), A.Rebalance(), Probe()], [s1, bt.Security("d", multiplier=5)])
+    elif tree == "three":
+        s11 = sub("s", sub_w, ["a", "b"])
+        m = bt.Strategy("m", [A.RunWeekly(), A.WeighSpecified(s=0.75, d=0.25), A.Rebalance(), Probe()], [s11, bt.Security("d", multiplier=5)])
+        root = bt.Strategy("r", [A.RunMonthly(), A.WeighSpecified(m=root_w.get("s", 0.5)), A.Rebalance(), Probe()], [m])
+    else:
+        root = bt.Strategy("r", [A.RunDaily(), A.WeighSpecified(**sub_w), A.Rebalance(), Probe()], [bt.Security("a"), bt.Security("b", multiplier=2)])
+    b = bt.Backtest(root, data, initial_capital=1e6, integer_positions=integer, progress_bar=False)
+    try:
+        b.run()
+    except Exception as e:
+        if rt.classify(e) == "guard":
+            return ("refused", [], 0)
+        return ("crash", [{"rule": "crash", "observed": rt.describe(e)}], 0)
+    viols = []
+    for path, now, tw, ws, value in seen:
+        for k, w in tw.items():
+            got = ws.get(k)
+            if integer:
+                # one unit of the most expensive security below, relative to the node's value
+                tol = 5.0 * float(data.max().max()) * 3 / max(1.0, abs(value))
+            else:
+                tol = 1e-9
+            if got is None or abs(got - w) > tol:
+                viols.append({"rule": "target_weight_in_backtest", "expected": {"node": path, "date": now, "child": k, "weight": w, "integer_positions": integer}, "observed": got})
+                break
+        if viols:
+            break
+    return ("ok", viols, len(seen))
+
+
 def replay(case):
+    if case["kind"] == "backtest":
+        w = case["where"]
+        return backtest_case((w[0], w[1], w[2], w[3], w[4]))[1]
     if case["kind"] == "seq":
         return seq_case((case["spec"], [tuple(s) for s in case["steps"]]))[1]
     return overtime_case((case["spec"], case["start"], case["target"], case["n"]))[1]
@@ -201,7 +257,7 @@ def configs(tier, seed):
     ]
     if tier == "quick":
         k = seed % len(costs)
-        plan = [("T1c", False, costs[0], {}, 2), ("T1c", False, costs[0], {}, 2, "exact", "idle"), ("T1c", True, costs[(k + 1) % 5], {}, 2), ("T1c", False, costs[(k + 2) % 5], {"a": 2}, 2), ("T2", False, costs[0], {}, 2), ("T2", True, costs[(k + 1) % 5], {}, 2)]
+        plan = [("T1c", False, costs[0], {}, 2), ("T1c", False, costs[0], {}, 2, "exact", "idle"), ("T1c", False, costs[0], {}, 2, "exact", "tiny"), ("T1c", True, costs[(k + 1) % 5], {}, 2), ("T1c", False, costs[(k + 2) % 5], {"a": 2}, 2), ("T2", False, costs[0], {}, 2), ("T2", True, costs[(k + 1) % 5], {}, 2)]
     else:
         plan = []
         for ci, cst in enumerate(costs):
@@ -212,10 +268,16 @@ def configs(tier, seed):
         plan.append(("T1c", False, costs[2], {}, 2, "decimal"))
         plan.append(("T1c", False, costs[0], {}, 3, "exact", "idle"))
         plan.append(("T1c", True, costs[1], {}, 2, "exact", "idle"))
+        plan.append(("T1c", False, costs[0], {}, 2, "exact", "tiny"))
     for p in plan:
         shape, integer, cst, mult, depth = p[:5]
         al = p[5] if len(p) > 5 else "exact"
         spec = dict(cst, shape=shape, integer=integer, mult=mult, capital=1024.0, ndates=4, alpha=al)
+        if len(p) > 6 and p[6] == "tiny":
+            # a book of a thousandth of a currency unit against prices in the hundred thousands: every
+            # trade is a few billionths of a unit
+            spec["capital"] = 2.0 ** -10
+            spec["prices"] = {k: [x * 65536.0 for x in T.TABLES["exact"][k][:4]] for k in ("a", "b", "c")}
         if len(p) > 6 and p[6] == "idle":
             # 'a' was held, closed by an earlier Rebalance and has been idle for a date while its price moved
             spec["ndates"] = 6
@@ -230,7 +292,7 @@ def configs(tier, seed):
 
 
 def run(ctx):
-    ctx.rule = "all sequences (depth <= bound) of (price move, target vector, cash fraction) steps on the flat and the nested tree x cost model x position mode; RebalanceOverTime(n) x start portfolios x targets; a sequence is non-trivial if it executed at least one trade"
+    ctx.rule = "all sequences (depth <= bound) of (price move, target vector, cash fraction) steps on the flat and the nested tree x cost model x position mode; RebalanceOverTime(n) x start portfolios x targets; Rebalance probed inside real backtests on flat / 2- / 3-level trees with explicit Security objects x position mode; a sequence is non-trivial if it executed at least one trade"
     ctx.assumptions += [
         "tolerance: the child's own trade costs (+ one more unit incl. that unit's half-spread and commission with integer positions); fractional and cost-free: 1e-9 relative",
         "base = strategy value read immediately before the algo",
@@ -284,4 +346,12 @@ def run(ctx):
             ctx.nontrivial_count += 1
             for v in viols:
                 ctx.violation(dict(v, build=kind, module=MOD, case={"kind": "overtime", "spec": item[0], "start": item[1], "target": item[2], "n": item[3]}))
-    ctx.bounds = {"sequences": total, "overtime_cases": len(ot), "builds": kinds}
+    bts = [(tree, integer, dname, sw, rw) for tree in ("flat", "two", "three") for integer in (False, True) for dname in ("d12", "d25") for sw in ({"a": 0.5, "b": 0.25}, {"a": 0.75, "b": -0.25}) for rw in ({"s": 0.5, "d": 0.25}, {"s": 0.25, "d": -0.25})]
+    for kind in kinds:
+        for item, (status, viols, n) in ctx.run(kind, MOD, "backtest_case", bts, chunksize=2):
+            ctx.add(states=1, transitions=n, traces_validated_against_impl=1, evaluations=n)
+            if n:
+                ctx.nontrivial_count += 1
+            for v in viols:
+                ctx.violation(dict(v, build=kind, module=MOD, case={"kind": "backtest", "where": list(item)}))
+    ctx.bounds = {"sequences": total, "overtime_cases": len(ot), "backtests": len(bts), "builds": kinds}
